@@ -44,7 +44,7 @@ SPEC = {
     "harnesses": [
         H("h05a", 2, 8, 2, 2, "two chunks, any subset requested"),
         H("h05a-3", 3, 10, 2, 2, "three chunks", tiers=("thorough",), mem_gb=16, timeout=3000),
-    ] + [m for m in _MI if m["name"] in ("h05m-whole", "h05m-cut-hdr1", "h05m-cut-crlf", "h05m-bad0")],
+    ] + [m for m in _MI if m["name"] in ("h05m-whole", "h05m-cut-hdr1", "h05m-cut-crlf", "h05m-bad0") or __import__("os").environ.get("ALLM")],
     # the other multipart instances (cuts inside / after a payload, one byte per callback, failing second chunk) are defined above but not
     # registered: their symbolic execution did not end within 600 s (the part loop no longer resolves concretely after a mid-payload cut)
 }
